@@ -37,7 +37,7 @@ def norm(v):
     return v
 
 
-def round_trip(msg_name, params, data):
+def round_trip(msg_name, params, data, at_end=False):
     cls_name = msg_name.replace("-", "_")
     prim_name = cls_name[:cls_name.rfind("_R")]
     p = PRIM[prim_name]()
@@ -45,7 +45,10 @@ def round_trip(msg_name, params, data):
         setattr(p, k, v)
     ds_kw = DM._DATASET_KEYWORDS.get(cls_name)
     if ds_kw and data is not None:
-        setattr(p, ds_kw, BytesIO(data))
+        bio = BytesIO(data)
+        if at_end:
+            bio.seek(0, 2)            # e.g. a stream the application filled with write(), or has already read
+        setattr(p, ds_kw, bio)
     msg = getattr(DM, cls_name)()
     msg.primitive_to_message(p)
     rx = DM.DIMSEMessage()
@@ -88,14 +91,15 @@ for msg_name in sorted(DM._COMMAND_SET_KEYWORDS):
             width = max([len(VALUES[k]) for k in present] + [1])
             for i in range(width):
                 params = {k: VALUES[k][min(i, len(VALUES[k]) - 1)] for k in present}
-                for data in (None, b"\x08\x00\x18\x00\x04\x00\x00\x001.2\x00"):
+                _ds = b"\x08\x00\x18\x00\x04\x00\x00\x001.2\x00"
+                for data, at_end in ((None, False), (_ds, False), (_ds, True)):
                     n += 1
                     try:
-                        why = round_trip(msg_name, params, data)
+                        why = round_trip(msg_name, params, data, at_end)
                     except Exception as e:
                         why = f"exception {type(e).__name__}: {e}"
                     if why:
-                        bad = dict(input={"message": msg_name, "parameters": {k: repr(v) for k, v in params.items()}, "data set": None if data is None else len(data)},
+                        bad = dict(input={"message": msg_name, "parameters": {k: repr(v) for k, v in params.items()}, "data set": None if data is None else f"{len(data)} bytes, stream position at the {'end' if at_end else 'start'}"},
                                    observed=why, expected="the same type, direction, parameters and data-set bytes after the round trip")
                         break
                 if bad:
